@@ -1185,8 +1185,12 @@ impl World {
         if !self.sim.panics.is_empty() {
             let ps = std::mem::take(&mut self.sim.panics);
             for p in ps {
-                let sig = format!("panic/{}", p);
-                self.viol(P_ANY, sig, format!("library code panicked: {p}"));
+                if p.contains("VERIF_LIVELOCK") {
+                    self.viol(P_ANY, "wedge/livelock".into(), format!("the client never reaches quiescence: {p}"));
+                } else {
+                    let sig = format!("panic/{}", p);
+                    self.viol(P_ANY, sig, format!("library code panicked: {p}"));
+                }
             }
             self.blind = true;
         }
